@@ -113,7 +113,7 @@ func ruleSortedInvariant(c *Ctx, rule string, pkgs []*packages.Package, min int)
 							continue
 						}
 						k++
-						fromSearch := dependsOnCall(call.Call.Args[1], func(cc *ssa.CallCommon) bool { return isBinSearch(staticCalleeObj(cc)) })
+						fromSearch := dependsOnCallDeep(call.Call.Args[1], func(cc *ssa.CallCommon) bool { return isBinSearch(staticCalleeObj(cc)) })
 						c.Ob(rule, fmt.Sprintf("%s/grow#%d", ssaFuncName(f), k), call.Pos(), fromSearch || sortsAfter(call.Instr), true, "a %s is grown with slices.Insert at a position that comes from a binary search: %v", tn.Name(), fromSearch)
 					}
 				}
